@@ -198,5 +198,6 @@ def plan(tier):
     if not q:
         h = StateToGraph(n=3, kind="stabilizer")
         h.parallel = True
-        jobs.append((h, {"time_budget": 3000}))
+        h.partial_ok = True  # ~181k paths (= every 3-qubit generator matrix); complete in ~1.5 h on an idle 16-core machine
+        jobs.append((h, {"time_budget": 3 * 3600, "chunk_paths": 64}))
     return jobs
